@@ -712,3 +712,420 @@ Qed.
 
 Theorem reachable_inv cfg ops : ebuf_inv (ebuf_run cfg ops).
 Proof. apply run_from_inv, new_inv. Qed.
+
+(* ============================================================================================== *)
+(* THE THEOREMS *)
+
+(* ---- counters ---- *)
+
+Theorem counters_exact : forall cfg ops,
+  let b := ebuf_run cfg ops in
+  (forall k, cnt_class (eb_total b) k = countN (in_class k) (eb_events b))
+  /\ (forall t, cnt_type (eb_total b) t = countN (in_type t) (eb_events b))
+  /\ (forall k, cnt_class (eb_written b) k = countN (fun r => in_class k r && is_written r) (eb_events b))
+  /\ (forall t, cnt_type (eb_written b) t = countN (fun r => in_type t r && is_written r) (eb_events b)).
+Proof.
+  intros cfg ops b. destruct (reachable_inv cfg ops) as [I1 I2 I3 I4 _ _ _].
+  repeat split; assumption.
+Qed.
+
+Theorem capacity_respected : forall cfg ops t,
+  countN (in_type t) (eb_events (ebuf_run cfg ops)) <= cfg_max (eb_cfg (ebuf_run cfg ops)) t.
+Proof. intros cfg ops t. apply (inv_cap _ (reachable_inv cfg ops)). Qed.
+
+Lemma cfg_run_from ops : forall b, eb_cfg (ebuf_run_from b ops) = eb_cfg b.
+Proof.
+  induction ops as [|op ops IH]; intro b; cbn [ebuf_run_from fold_left]; [reflexivity|].
+  fold (ebuf_run_from (ebuf_step b op) ops). rewrite IH.
+  destruct op; cbn [ebuf_step].
+  - unfold ebuf_insert. destruct (cfg_max (eb_cfg b) t =? 0); [reflexivity|].
+    destruct (if cnt_type (eb_total b) t =? cfg_max (eb_cfg b) t then remove_first_type t (eb_events b) else None)
+      as [[old rest]|]; reflexivity.
+  - unfold ebuf_select_by_class. destruct (select_loop _ _ _); reflexivity.
+  - unfold ebuf_select_by_type. destruct (select_loop _ _ _); reflexivity.
+  - unfold ebuf_write_hdrs. destruct (write_loop _ _ _) as [[[[? ?] ?] ?] ?]; reflexivity.
+  - unfold ebuf_clear_written. destruct (clear_loop _ _) as [[? ?] ?]; reflexivity.
+  - reflexivity.
+Qed.
+
+Lemma countN_pos_existsb f l : (0 <? countN f l) = existsb f l.
+Proof.
+  induction l as [|r l IH]; cbn [countN existsb]; [reflexivity|].
+  destruct (f r); cbn [orb]; [|exact IH]. apply N.ltb_lt. lia.
+Qed.
+
+Definition unwritten_of (k : eclass) (r : erec) : bool := in_class k r && negb (is_written r).
+
+Lemma unwritten_count k l :
+  countN (in_class k) l - countN (wclass k) l = countN (unwritten_of k) l
+  /\ countN (wclass k) l <= countN (in_class k) l.
+Proof.
+  induction l as [|r l [IH1 IH2]]; cbn [countN]; [split; reflexivity|].
+  unfold wclass at 1 3, unwritten_of at 1. destruct (in_class k r), (is_written r); cbn [andb negb]; lia.
+Qed.
+
+(* the class bits tell the truth: bit c <-> the buffer holds an event of class c that is not Written *)
+Theorem class_bits_exact : forall cfg ops,
+  let b := ebuf_run cfg ops in
+  ebuf_unwritten_classes b =
+  (existsb (unwritten_of Class1) (eb_events b),
+   existsb (unwritten_of Class2) (eb_events b),
+   existsb (unwritten_of Class3) (eb_events b)).
+Proof.
+  intros cfg ops b. destruct (reachable_inv cfg ops) as [I1 _ I3 _ _ _ _]. fold b in I1, I3.
+  unfold ebuf_unwritten_classes.
+  pose proof (I1 Class1) as A1. pose proof (I1 Class2) as A2. pose proof (I1 Class3) as A3.
+  pose proof (I3 Class1) as B1. pose proof (I3 Class2) as B2. pose proof (I3 Class3) as B3.
+  cbn [cnt_class] in A1, A2, A3, B1, B2, B3. rewrite A1, A2, A3, B1, B2, B3.
+  rewrite (proj1 (unwritten_count Class1 _)), (proj1 (unwritten_count Class2 _)), (proj1 (unwritten_count Class3 _)).
+  rewrite !countN_pos_existsb. reflexivity.
+Qed.
+
+(* `total - written` never underflows (the panic of F3 cannot happen) *)
+Theorem no_underflow : forall cfg ops, ebuf_subtract_ok (ebuf_run cfg ops) = true.
+Proof.
+  intros cfg ops. destruct (reachable_inv cfg ops) as [I1 _ I3 _ _ _ _].
+  unfold ebuf_subtract_ok.
+  pose proof (I1 Class1) as A1. pose proof (I1 Class2) as A2. pose proof (I1 Class3) as A3.
+  pose proof (I3 Class1) as B1. pose proof (I3 Class2) as B2. pose proof (I3 Class3) as B3.
+  cbn [cnt_class] in A1, A2, A3, B1, B2, B3. rewrite A1, A2, A3, B1, B2, B3.
+  pose proof (proj2 (unwritten_count Class1 (eb_events (ebuf_run cfg ops)))).
+  pose proof (proj2 (unwritten_count Class2 (eb_events (ebuf_run cfg ops)))).
+  pose proof (proj2 (unwritten_count Class3 (eb_events (ebuf_run cfg ops)))).
+  rewrite !andb_true_iff, !N.leb_le. repeat split; assumption.
+Qed.
+
+(* ---- ids ---- *)
+
+(* ids handed out by the inserts of a run, in order *)
+Definition created_of (b : ebuf) (op : eop) : list N :=
+  match op with
+  | OpInsert i k t m dv =>
+    match snd (ebuf_insert b i k t m dv) with
+    | InsOk id => [id]
+    | InsOverflow id _ => [id]
+    | InsTypeMaxIsZero => []
+    end
+  | _ => []
+  end.
+
+Fixpoint created_ids (b : ebuf) (ops : list eop) : list N :=
+  match ops with
+  | [] => []
+  | op :: tl => created_of b op ++ created_ids (ebuf_step b op) tl
+  end.
+
+Fixpoint nseq (start : N) (n : nat) : list N :=
+  match n with O => [] | S k => start :: nseq (start + 1) k end.
+
+Lemma step_next b op : ebuf_inv b ->
+  eb_next (ebuf_step b op) = eb_next b + N.of_nat (length (created_of b op))
+  /\ created_of b op = nseq (eb_next b) (length (created_of b op)).
+Proof.
+  intros Hinv. destruct op; cbn [ebuf_step created_of length nseq]; try (split; [|reflexivity]).
+  - pose proof (ebuf_insert_cases b index k t m dv Hinv) as H.
+    destruct (ebuf_insert b index k t m dv) as [b' res]. cbn [fst snd].
+    destruct H as [(_ & -> & ->)|[(_ & _ & -> & _ & _ & _ & _ & Hn & _)|(_ & _ & old & pre & post & _ & _ & _ & -> & _ & _ & _ & _ & Hn & _)]];
+      cbn [length nseq]; split; try reflexivity; lia.
+  - unfold ebuf_select_by_class. destruct (select_loop _ _ _). cbn. lia.
+  - unfold ebuf_select_by_type. destruct (select_loop _ _ _). cbn. lia.
+  - unfold ebuf_write_hdrs. destruct (write_loop _ _ _) as [[[[? ?] ?] ?] ?]. cbn. lia.
+  - unfold ebuf_clear_written. destruct (clear_loop _ _) as [[? ?] ?]. cbn. lia.
+  - cbn. lia.
+Qed.
+
+Lemma nseq_app a n m : nseq a n ++ nseq (a + N.of_nat n) m = nseq a (n + m).
+Proof.
+  revert a. induction n as [|n IH]; intro a; cbn [nseq app plus].
+  - replace (a + N.of_nat 0) with a by lia. reflexivity.
+  - f_equal. rewrite <- IH. f_equal. f_equal. lia.
+Qed.
+
+Lemma created_ids_seq ops : forall b, ebuf_inv b ->
+  created_ids b ops = nseq (eb_next b) (length (created_ids b ops)).
+Proof.
+  induction ops as [|op ops IH]; intros b Hinv; cbn [created_ids]; [reflexivity|].
+  destruct (step_next b op Hinv) as [Hn Hc].
+  rewrite app_length, <- nseq_app, <- Hc. f_equal.
+  rewrite (IH _ (step_preserves b op Hinv)) at 1. rewrite Hn. reflexivity.
+Qed.
+
+(* ids are unique and monotone: the inserts of a run hand out exactly 0, 1, 2, ... in this order;
+   the buffer is sorted by id (insertion order = id order) and every id in it is below `next` *)
+Theorem ids_unique_monotone : forall cfg ops,
+  created_ids (ebuf_new cfg) ops = nseq 0 (length (created_ids (ebuf_new cfg) ops))
+  /\ StronglySorted (fun a b => r_id a < r_id b) (eb_events (ebuf_run cfg ops))
+  /\ Forall (fun r => r_id r < eb_next (ebuf_run cfg ops)) (eb_events (ebuf_run cfg ops)).
+Proof.
+  intros cfg ops. split; [apply (created_ids_seq ops (ebuf_new cfg) (new_inv cfg))|].
+  destruct (reachable_inv cfg ops) as [_ _ _ _ _ I6 I7]. split; assumption.
+Qed.
+
+(* ---- insert ---- *)
+
+(* insert with per-type overflow: below capacity the record is appended; at capacity the OLDEST
+   record of the SAME type is discarded and reported, whatever its state, and the flag is raised *)
+Theorem insert_overflow_discards_oldest_same_type : forall cfg ops index k t m dv,
+  let b := ebuf_run cfg ops in
+  let rec := mkRec (eb_next b) index k t m dv dv Unselected in
+  let b' := fst (ebuf_insert b index k t m dv) in
+  let res := snd (ebuf_insert b index k t m dv) in
+  (cfg_max cfg t = 0 -> b' = b /\ res = InsTypeMaxIsZero)
+  /\ (cfg_max cfg t <> 0 -> countN (in_type t) (eb_events b) < cfg_max cfg t ->
+      res = InsOk (eb_next b) /\ eb_events b' = eb_events b ++ [rec] /\ eb_overflown b' = eb_overflown b)
+  /\ (cfg_max cfg t <> 0 -> countN (in_type t) (eb_events b) = cfg_max cfg t ->
+      exists old pre post,
+        eb_events b = pre ++ old :: post
+        /\ Forall (fun r => r_type r <> t) pre /\ r_type old = t
+        /\ res = InsOverflow (eb_next b) (r_id old)
+        /\ eb_events b' = pre ++ post ++ [rec]
+        /\ eb_overflown b' = true).
+Proof.
+  intros cfg ops index k t m dv b rec b' res.
+  pose proof (ebuf_insert_cases b index k t m dv (reachable_inv cfg ops)) as H.
+  assert (Hcfg : eb_cfg b = cfg) by (unfold b, ebuf_run; rewrite cfg_run_from; reflexivity).
+  rewrite Hcfg in H. subst b' res. destruct (ebuf_insert b index k t m dv) as [b' res]. cbn [fst snd].
+  destruct H as [(H0 & -> & ->)|[(Hn0 & Hlt & -> & Hev & _ & _ & Hov & _)|(Hn0 & Hfull & old & pre & post & Hl & Hpre & Hto & -> & Hev & _ & _ & Hov & _)]].
+  - repeat split; intros; try reflexivity; contradiction.
+  - repeat split; intros; try contradiction; try assumption; lia.
+  - repeat split; intros; try contradiction; try lia.
+    exists old, pre, post. repeat split; try assumption.
+    eapply Forall_impl; [|exact Hpre]. intros r Hr Heq. unfold in_type in Hr. rewrite Heq, ptype_eqb_refl in Hr. discriminate.
+Qed.
+
+(* ---- clear_written ---- *)
+
+(* release exactly what was written: the ids reported to the application are those of the Written
+   records, in order; exactly these records leave the buffer; nothing else changes state *)
+Theorem clear_written_releases_exactly_written : forall b,
+  let b' := fst (ebuf_clear_written b) in
+  let ids := snd (ebuf_clear_written b) in
+  ids = map r_id (filter is_written (eb_events b))
+  /\ eb_events b' = filter (fun r => negb (is_written r)) (eb_events b).
+Proof.
+  intros b. unfold ebuf_clear_written.
+  destruct (clear_loop (eb_events b) (eb_total b)) as [[evs total] ids] eqn:El. cbn [fst snd eb_events].
+  destruct (clear_loop_spec _ _ _ _ _ El) as [-> ->]. split; reflexivity.
+Qed.
+
+(* ---- reset ---- *)
+
+Theorem reset_unselects_all : forall b,
+  eb_events (ebuf_reset b) = map (fun r => set_state r Unselected) (eb_events b)
+  /\ Forall (fun r => r_state r = Unselected) (eb_events (ebuf_reset b))
+  /\ map r_id (eb_events (ebuf_reset b)) = map r_id (eb_events b)
+  /\ eb_total (ebuf_reset b) = eb_total b /\ eb_overflown (ebuf_reset b) = eb_overflown b.
+Proof.
+  intros b. cbn [ebuf_reset eb_events eb_total eb_overflown]. repeat split.
+  - apply Forall_forall. intros r Hr. apply in_map_iff in Hr. destruct Hr as (x & <- & _). reflexivity.
+  - rewrite map_map. reflexivity.
+Qed.
+
+(* ---- write ---- *)
+
+Definition ew_ok (w : ewriter) : Prop :=
+  match ew_state w with EwProgress _ _ _ => ew_out w <> [] | _ => True end.
+
+Lemma ehdrs_objs_cons h out : ehdrs_objs (h :: out) = ehdrs_objs out ++ rev (eh_objs h).
+Proof. unfold ehdrs_objs. cbn [rev]. rewrite map_app, concat_app. cbn [map concat]. rewrite app_nil_r. reflexivity. Qed.
+
+Lemma ehdrs_objs_push out o : out <> [] -> ehdrs_objs (push_obj out o) = ehdrs_objs out ++ [o].
+Proof.
+  destruct out as [|h tl]; [contradiction|]. intros _. cbn [push_obj].
+  rewrite !ehdrs_objs_cons. cbn [eh_objs rev]. rewrite app_assoc. reflexivity.
+Qed.
+
+Lemma ew_start_objs w r w' : ew_start w r = Some w' ->
+  ehdrs_objs (ew_out w') = ehdrs_objs (ew_out w) ++ [(r, 0)] /\ ew_ok w'.
+Proof.
+  unfold ew_start. destruct (_ <=? ew_rem w); [|discriminate].
+  destruct (evar_gv (rec_wvar r) (r_meas r)) as [g var]. intros H. injection H as <-.
+  cbn [ew_out]. rewrite ehdrs_objs_cons. split; [reflexivity|]. unfold ew_ok. cbn. discriminate.
+Qed.
+
+Lemma ew_try_objs w r w' : ew_ok w -> ew_try w r = Some w' ->
+  (exists d, ehdrs_objs (ew_out w') = ehdrs_objs (ew_out w) ++ [(r, d)]) /\ ew_ok w'.
+Proof.
+  intros Hok. unfold ew_try. unfold ew_ok in Hok.
+  destruct (ew_state w) as [|count cto key|]; [| |discriminate].
+  - intros H. destruct (ew_start_objs _ _ _ H) as [H1 H2]. split; [exists 0; exact H1|exact H2].
+  - destruct (negb (hdr_key_eqb key (rec_key r))).
+    { intros H. destruct (ew_start_objs _ _ _ H) as [H1 H2]. split; [exists 0; exact H1|exact H2]. }
+    destruct (count =? 65535).
+    { intros H. destruct (ew_start_objs _ _ _ H) as [H1 H2]. split; [exists 0; exact H1|exact H2]. }
+    destruct (if evar_uses_cto (rec_wvar r) then cto_offset cto r else Some 0) as [d|].
+    + destruct (_ <=? ew_rem w); [|discriminate]. intros H. injection H as <-. cbn [ew_out].
+      split; [exists d; apply ehdrs_objs_push; exact Hok|]. unfold ew_ok. cbn [ew_state ew_out].
+      destruct (ew_out w); [contradiction|discriminate].
+    + intros H. destruct (ew_start_objs _ _ _ H) as [H1 H2]. split; [exists 0; exact H1|exact H2].
+Qed.
+
+Lemma ew_feed_objs l : forall w w', ew_ok w -> ew_feed w l = Some w' ->
+  map fst (ehdrs_objs (ew_out w')) = map fst (ehdrs_objs (ew_out w)) ++ l /\ ew_ok w'.
+Proof.
+  induction l as [|r l IH]; intros w w' Hok H; cbn [ew_feed] in H.
+  - injection H as <-. rewrite app_nil_r. split; [reflexivity|exact Hok].
+  - destruct (ew_try w r) as [w1|] eqn:Et; [|discriminate].
+    destruct (ew_try_objs _ _ _ Hok Et) as [[d Hd] Hok1].
+    destruct (IH _ _ Hok1 H) as [H1 H2]. split; [|exact H2].
+    rewrite H1, Hd, map_app. cbn [map fst]. rewrite <- app_assoc. reflexivity.
+Qed.
+
+(* write with a byte budget: the records written are a PREFIX, in insertion order, of the Selected
+   records; exactly these become Written, nothing else changes; the prefix is the longest one that
+   fits: either everything selected was written (complete), or the next selected record was refused
+   by the writer in the state reached after the prefix. *)
+Theorem write_oldest_first : forall b budget,
+  let b' := fst (ebuf_write_hdrs b budget) in
+  let r := snd (ebuf_write_hdrs b budget) in
+  let sel := selected (eb_events b) in
+  let k := N.to_nat (wr_count r) in
+  (k <= length sel)%nat
+  /\ eb_events b' = mark_written k (eb_events b)
+  /\ map fst (ehdrs_objs (wr_hdrs r)) = firstn k sel
+  /\ (exists w, ew_feed (ew_new budget) (firstn k sel) = Some w
+                /\ wr_hdrs r = ew_out w /\ wr_rem r = ew_rem w
+                /\ (wr_complete r = false -> exists x, nth_error sel k = Some x /\ ew_try w x = None))
+  /\ (wr_complete r = true <-> k = length sel).
+Proof.
+  intros b budget. unfold ebuf_write_hdrs.
+  destruct (write_loop (eb_events b) (ew_new budget) (eb_written b)) as [[[[evs w] cnt] n] c] eqn:El.
+  cbn [fst snd eb_events wr_count wr_hdrs wr_complete wr_rem].
+  destruct (write_loop_spec _ _ _ _ _ _ _ _ El) as (H1 & H2 & H3 & H4 & H5).
+  assert (Hok : ew_ok (ew_new budget)) by exact I.
+  destruct (ew_feed_objs _ _ _ Hok H3) as [H6 _]. cbn in H6.
+  repeat split; try assumption.
+  - exists w. repeat split; assumption.
+  - intros Hk. destruct c; [reflexivity|]. destruct (H5 eq_refl) as (x & Hx & _).
+    rewrite Hk in Hx. pose proof (proj2 (nth_error_None (selected (eb_events b)) (length (selected (eb_events b)))) (le_n _)) as Hn.
+    rewrite Hn in Hx. discriminate.
+Qed.
+
+(* exact time of CTO objects *)
+
+Lemma evar_eqb_eq a b : evar_eqb a b = true -> a = b.
+Proof. destruct a, b; vm_compute; intro H; try reflexivity; discriminate H. Qed.
+
+Definition obj_time_ok (h : ehdr) (o : erec * N) : Prop :=
+  if evar_uses_cto (rec_wvar (fst o)) then
+    exists sync t0, eh_cto h = Some (sync, t0)
+                    /\ time_or_default (m_time (r_meas (fst o))) = (sync, t0 + snd o) /\ snd o <= 65535
+  else snd o = 0.
+
+Definition hdrs_time_ok (out : list ehdr) : Prop := Forall (fun h => Forall (obj_time_ok h) (eh_objs h)) out.
+
+Definition ew_time_ok (w : ewriter) : Prop :=
+  hdrs_time_ok (ew_out w)
+  /\ match ew_state w with
+     | EwProgress _ cto key =>
+       exists h tl, ew_out w = h :: tl /\ (evar_uses_cto (snd (fst key)) = true -> eh_cto h = Some cto)
+     | _ => True
+     end.
+
+Lemma ew_start_time w r w' : hdrs_time_ok (ew_out w) -> ew_start w r = Some w' -> ew_time_ok w'.
+Proof.
+  intros Hout. unfold ew_start. destruct (_ <=? ew_rem w); [|discriminate].
+  destruct (evar_gv (rec_wvar r) (r_meas r)) as [g var]. intros H. injection H as <-.
+  split; cbn [ew_out ew_state].
+  - constructor; [|exact Hout]. cbn [eh_objs]. constructor; [|constructor].
+    unfold obj_time_ok. cbn [fst snd eh_cto]. destruct (evar_uses_cto (rec_wvar r)); [|reflexivity].
+    destruct (time_or_default (m_time (r_meas r))) as [sync t0] eqn:Et.
+    exists sync, t0. repeat split; [f_equal; lia|lia].
+  - eexists _, _. split; [reflexivity|]. unfold rec_key. cbn [fst snd eh_cto]. intros ->. reflexivity.
+Qed.
+
+Lemma cto_offset_some cto r d : cto_offset cto r = Some d ->
+  time_or_default (m_time (r_meas r)) = (fst cto, snd cto + d) /\ d <= 65535.
+Proof.
+  unfold cto_offset. destruct (time_or_default (m_time (r_meas r))) as [s t]. cbn [fst snd].
+  destruct (Bool.eqb s (fst cto)) eqn:Eb; cbn [negb]; [|discriminate].
+  apply Bool.eqb_prop in Eb. subst s.
+  destruct (t <? snd cto) eqn:El; [discriminate|]. apply N.ltb_ge in El.
+  destruct (65535 <? t - snd cto) eqn:Eh; [discriminate|]. apply N.ltb_ge in Eh.
+  intros H. injection H as <-. split; [f_equal; lia|exact Eh].
+Qed.
+
+Lemma ew_try_time w r w' : ew_time_ok w -> ew_try w r = Some w' -> ew_time_ok w'.
+Proof.
+  intros [Hout Hst]. unfold ew_try.
+  destruct (ew_state w) as [|count cto key|]; [apply ew_start_time; exact Hout| |discriminate].
+  destruct (hdr_key_eqb key (rec_key r)) eqn:Ek; cbn [negb]; [|apply ew_start_time; exact Hout].
+  destruct (count =? 65535); [apply ew_start_time; exact Hout|].
+  destruct Hst as (h & tl & Hw & Hcto).
+  destruct (evar_uses_cto (rec_wvar r)) eqn:Eu.
+  - destruct (cto_offset cto r) as [d|] eqn:Eo; [|apply ew_start_time; exact Hout].
+    destruct (_ <=? ew_rem w); [|discriminate]. intros H. injection H as <-.
+    assert (Hkey : snd (fst key) = rec_wvar r).
+    { destruct key as [[t1 v1] n1]. unfold rec_key, hdr_key_eqb in Ek. cbn [fst snd].
+      apply andb_prop in Ek. destruct Ek as [Ek _]. apply andb_prop in Ek. destruct Ek as [_ Ek].
+      apply evar_eqb_eq; exact Ek. }
+    rewrite Hkey in Hcto. specialize (Hcto Eu).
+    destruct (cto_offset_some _ _ _ Eo) as [Ht Hd].
+    split; cbn [ew_out ew_state]; rewrite Hw; cbn [push_obj].
+    + unfold hdrs_time_ok in *. rewrite Hw in Hout. inversion Hout as [|? ? Hh Htl]; subst.
+      constructor; [|exact Htl]. cbn [eh_objs]. constructor; [|exact Hh].
+      unfold obj_time_ok. cbn [fst snd eh_cto]. rewrite Eu. destruct cto as [sync t0].
+      exists sync, t0. repeat split; assumption.
+    + eexists _, _. split; [reflexivity|]. cbn [eh_cto]. intros _. exact Hcto.
+  - destruct (_ <=? ew_rem w); [|discriminate]. intros H. injection H as <-.
+    assert (Hkey : snd (fst key) = rec_wvar r).
+    { destruct key as [[t1 v1] n1]. unfold rec_key, hdr_key_eqb in Ek. cbn [fst snd].
+      apply andb_prop in Ek. destruct Ek as [Ek _]. apply andb_prop in Ek. destruct Ek as [_ Ek].
+      apply evar_eqb_eq; exact Ek. }
+    split; cbn [ew_out ew_state]; rewrite Hw; cbn [push_obj].
+    + unfold hdrs_time_ok in *. rewrite Hw in Hout. inversion Hout as [|? ? Hh Htl]; subst.
+      constructor; [|exact Htl]. cbn [eh_objs]. constructor; [|exact Hh].
+      unfold obj_time_ok. cbn [fst snd]. rewrite Eu. reflexivity.
+    + eexists _, _. split; [reflexivity|]. cbn [eh_cto]. rewrite Hkey, Eu. discriminate.
+Qed.
+
+Lemma ew_feed_time l : forall w w', ew_time_ok w -> ew_feed w l = Some w' -> ew_time_ok w'.
+Proof.
+  induction l as [|r l IH]; intros w w' Hok H; cbn [ew_feed] in H; [injection H as <-; exact Hok|].
+  destruct (ew_try w r) as [w1|] eqn:Et; [|discriminate].
+  eapply IH; [eapply ew_try_time; eassumption|exact H].
+Qed.
+
+(* every object carries the record's own time: objects of the CTO variations (g2v3, g4v3) sit under
+   a g51 header with the record's synchronisation state and  record time = CTO + 16-bit offset;
+   all other objects have offset 0 (their time, if the variation has one, is the record's, see
+   DbTypes.event_obj). With write_oldest_first: index, value, flags and time of every object are
+   those of the record. *)
+Theorem write_exact_time : forall b budget,
+  Forall (fun h => Forall (obj_time_ok h) (eh_objs h)) (wr_hdrs (snd (ebuf_write_hdrs b budget))).
+Proof.
+  intros b budget. destruct (write_oldest_first b budget) as (_ & _ & _ & (w & Hf & -> & _) & _).
+  assert (H0 : ew_time_ok (ew_new budget)) by (split; [constructor|exact I]).
+  exact (proj1 (ew_feed_time _ _ _ H0 Hf)).
+Qed.
+
+(* ---- overflow flag ---- *)
+
+Definition at_capacity (cfg : ebcfg) (l : list erec) (t : ptype) : bool :=
+  negb (cfg_max cfg t =? 0) && (cfg_max cfg t <=? countN (in_type t) l).
+
+(* the flag is raised by a discard (insert_overflow_discards_oldest_same_type), untouched by select,
+   write and reset, and lowered by clear_written exactly when no type is at capacity afterwards *)
+Theorem overflow_flag_history : forall cfg ops,
+  let b := ebuf_run cfg ops in
+  (forall c1 c2 c3 lim, eb_overflown (fst (ebuf_select_by_class b c1 c2 c3 lim)) = eb_overflown b)
+  /\ (forall t v lim, eb_overflown (fst (ebuf_select_by_type b t v lim)) = eb_overflown b)
+  /\ (forall budget, eb_overflown (fst (ebuf_write_hdrs b budget)) = eb_overflown b)
+  /\ eb_overflown (ebuf_reset b) = eb_overflown b
+  /\ eb_overflown (fst (ebuf_clear_written b))
+     = eb_overflown b && existsb (at_capacity cfg (eb_events (fst (ebuf_clear_written b)))) all_ptypes.
+Proof.
+  intros cfg ops b. repeat split.
+  - intros. unfold ebuf_select_by_class. destruct (select_loop _ _ _); reflexivity.
+  - intros. unfold ebuf_select_by_type. destruct (select_loop _ _ _); reflexivity.
+  - intros. unfold ebuf_write_hdrs. destruct (write_loop _ _ _) as [[[[? ?] ?] ?] ?]; reflexivity.
+  - pose proof (clear_preserves b (reachable_inv cfg ops)) as Hinv.
+    assert (Hcfg : eb_cfg b = cfg) by (unfold b, ebuf_run; rewrite cfg_run_from; reflexivity).
+    pose proof (inv_total_type _ Hinv) as Ht. revert Ht. unfold ebuf_clear_written.
+    destruct (clear_loop (eb_events b) (eb_total b)) as [[evs total] ids]. cbn [fst eb_events eb_total eb_overflown].
+    intros Ht. rewrite Hcfg.
+    assert (Hany : any_full cfg total = existsb (at_capacity cfg evs) all_ptypes).
+    { unfold any_full. induction all_ptypes as [|t ts IHt]; cbn [existsb]; [reflexivity|]. rewrite IHt. f_equal.
+      unfold type_full, at_capacity. rewrite Ht. destruct (cfg_max cfg t =? 0); reflexivity. }
+    rewrite Hany. destruct (existsb (at_capacity cfg evs) all_ptypes), (eb_overflown b); reflexivity.
+Qed.
